@@ -11,7 +11,11 @@ BehaviourRecord(c) ==
    dsl |-> "Implicit", algo |-> "NewtonRaphson", jac |-> IF c.pot = "Probe" THEN "wrong" ELSE "analytic", eps |-> 14,
    scheme |-> "theta", hyps |-> <<c.hyp>>, el |-> BrickElasticity, axes |-> AxesConvention(c),
    flowp |-> IF c.flow = "none" THEN P(<<>>, "") ELSE FlowParams(c.flow), critp |-> CritParams(c.crit), ihrp |-> IhrParams(c.ihr),
-   khrp |-> KhrParams(c.khr), potp |-> IF c.pot = "Probe" THEN P(<<>>, "") ELSE PotParams(c.pot), nucp |-> NucParams(c.nuc)] @@ c
+   khrp |-> IF c.khr \in CompositeKhr THEN P(<<>>, "") ELSE KhrParams(c.khr),
+   khrparts |-> IF c.khr \in CompositeKhr
+                THEN <<[type |-> KhrParts(c.khr)[1], p |-> KhrParams(KhrParts(c.khr)[1])], [type |-> KhrParts(c.khr)[2], p |-> SecondKhrParams(KhrParts(c.khr)[2])]>>
+                ELSE <<>>,
+   potp |-> IF c.pot = "Probe" THEN P(<<>>, "") ELSE PotParams(c.pot), nucp |-> NucParams(c.nuc)] @@ c
 CaseRecord(c, k, th) == [blockclass |-> BlockClass, theta |-> th, f0 |-> InitialPorosity, e0 |-> InitialElasticStrain, bkey |-> CfgKey(c), hyp |-> c.hyp, path |-> [j \in 1..Len(Paths[k]) |-> [de |-> Paths[k][j][1], dt |-> Paths[k][j][2]]],
                      pathid |-> k, twin |-> IF c \in TwinSample(Thorough) THEN TwinKey(c) ELSE "", njeps |-> JacobianPerturbations, p0 |-> InitialEquivalentStrain, cfg |-> c]
 Cs == LET s == SetToSeq({<<i, k, th>> : i \in 1..Len(Cfgs), k \in 1..Len(Paths), th \in Thetas}) IN
